@@ -190,6 +190,27 @@ def run(R):
             R.violation("C13.prefix", "minus", "unary minus takes its operand at level %s: it must include cast/subscript/qualified name "
                                                "(levels %s) and exclude * / (level %s)" % (levels.get("minus"), (p["::"], p["["], p["."]), p["*"]),
                         [uf.loc()])
+    # every successful return of the prefix function goes through the climb, except the plain operand and the `*` wildcard
+    oks = [(i, s_) for i, s_ in uf.stmts() if s_["k"] == "assign" and s_["pl"]["l"] == 0 and s_["rv"]["k"] == "aggr" and s_["rv"].get("variant") == "Ok"]
+    climb_blocks = [c.bb for c in calls]
+    bad_ok = []
+    free = uf.reachable_from(0, avoid=set(climb_blocks))
+    for i, s_ in oks:
+        if i not in free:
+            continue  # every path to this return passes a climb call
+        # the wildcard return: the value built is ParserExpressionTreeData::Wildcard
+        reg_w = any(s2["rv"]["k"] == "aggr" and s2["rv"].get("variant") == "Wildcard" for i2, s2 in uf.stmts() if uf.dominates(i2, i) or i2 == i)
+        near_w = any(s2["rv"]["k"] == "aggr" and s2["rv"].get("variant") == "Wildcard" for i2, s2 in uf.stmts()
+                     if i in uf.reachable_from(i2) and len(uf.reachable_from(i2)) <= 12)
+        if reg_w or near_w:
+            continue
+        bad_ok.append((i, s_))
+    if bad_ok:
+        R.violation("C13.prefix", "early-return",
+                    "the prefix-operator function returns an operand without climbing the tighter-binding postfix / comparison operators first "
+                    "(e.g. folding `-1` into a literal): `-1::text` would group as `(-1)::text`", ["%s:%d" % (uf.file, bad_ok[0][1]["line"])])
+    elif oks:
+        R.ok("C13.prefix", "returns", "every successful return after a prefix operator passes the climb (or is the `*` wildcard)", uf.loc())
     # ---- tokenizer fuse
     tf2 = R.need_fn("sqlgrep::parsing::tokenizer::tokenize")
     duals = [(i, s) for i, s in tf2.stmts() if s["k"] == "assign" and s["rv"]["k"] == "aggr" and s["rv"].get("variant") == "Dual"]
